@@ -379,7 +379,7 @@ class Pool():
                         continue
                     try:
                         msg = conn.recv()
-                    except EOFError:
+                    except (EOFError, OSError):
                         logger.debug('EOFError occurred while reading from a pipe: {} - will try to issue artificial closing message', conn)
                         found = False
                         for wid, queue in self._queues.items():
